@@ -14,8 +14,8 @@
 //!            b = the bundle text read by the independent parser
 //!   --obs    one observation per case for spec/trace/BundleTrace.tla: {id, g, error, named[], panic, hang, ms, ndefs}
 //!   --status one line per case {id, status, out, files, text}
-//! `--corrupt dup-body` duplicates the first module definition of the bundle text so that the module body is inlined
-//! twice (binding demonstration only).
+//! `--corrupt dup-body` makes the first module accessor of the bundle text ignore its cache, so that the module body
+//! runs once per requirer; `--corrupt hide-error` / `drop-name` falsify the error observation (binding demonstrations only).
 use crate::dataconv;
 use crate::sem::default_env;
 use crate::util::{arg_value, guarded, read_ndjson, Out};
@@ -131,6 +131,7 @@ fn call_text(case: &Case, f: usize, i: usize, c: &Value, o: &mut String) {
     let (pre, post) = if shadow { ("do\nlocal function require(x) return \"shadow:\" .. x end\n", "end\n") } else { ("", "") };
     o.push_str(pre);
     match pos {
+        "strcall" if lit => o.push_str(&format!("local r{} = require {}\ndeps[{}] = r{}\n", i, arg, i, i)),
         "stmt" => o.push_str(&format!("require({})\ndeps[{}] = \"stmt\"\n", arg, i)),
         "expr" => o.push_str(&format!("local holder{} = {{first = require({}), tag = \"x\"}}\ndeps[{}] = holder{}.first\n", i, arg, i, i)),
         "fn" => o.push_str(&format!("local function load{}() return require({}) end\ndeps[{}] = load{}()\n", i, arg, i, i)),
@@ -405,10 +406,7 @@ fn config_text(case: &Case, excludes: &[String]) -> String {
     format!("{{ generator: {}, rules: [{}], bundle: {{ require_mode: {}, excludes: [{}] }} }}", generator, rules, mode, ex)
 }
 
-/// duplicates the first module definition block of a bundle text: the module body now exists twice and the second
-/// definition (same accessor name) replaces the first one AFTER the first one may already have been... no: both are
-/// defined before any code runs, so the body is simply inlined twice; to make the second copy observable the accessor
-/// of the copy does not consult the cache
+/// the first module accessor no longer consults its cache: the body of that module runs once per requirer
 fn corrupt_dup_body(text: &str) -> String {
     // turn the cached accessor into an uncached one: `if not v then` -> `if true then`
     if text.contains("if not v then") {
@@ -439,7 +437,9 @@ pub fn main(args: &[String]) -> i32 {
         let resources = Resources::from_memory();
         let mut files = serde_json::Map::new();
         let mut texts: HashMap<usize, String> = HashMap::new();
-        let entry = entry_text(&case);
+        // `override`: {path: text} replaces generated texts (pinned reproducers / probes beyond the generated family)
+        let over = |path: &str, text: String| c["override"][path].as_str().map(|s| s.to_string()).unwrap_or(text);
+        let entry = over(&case.path(1), entry_text(&case));
         resources.write(case.path(1), &entry).expect("write");
         files.insert(case.path(1), json!(entry));
         texts.insert(1, entry);
@@ -456,6 +456,7 @@ pub fn main(args: &[String]) -> i32 {
                 "data" => dataconv::render(&data_datum(case.dataext()), case.dataext(), 0).expect("data module renders"),
                 _ => module_text(&case, f),
             };
+            let text = over(&case.path(f), text);
             resources.write(case.path(f), &text).expect("write");
             files.insert(case.path(f), json!(text));
             texts.insert(f, text);
@@ -530,6 +531,13 @@ pub fn main(args: &[String]) -> i32 {
             (Some(t), false) => (t.matches("__modImpl").count() / 3) as i64,
             _ => -1,
         };
+        // binding demonstrations on the error path: pretend the error was not reported / forget one named file
+        if how == "hide-error" && error == 1 && named.len() >= 2 {
+            error = 0;
+        }
+        if how == "drop-name" && error == 1 && !named.is_empty() {
+            named.remove(0);
+        }
         obs.emit(&json!({"id": id, "g": g, "error": error, "named": named, "panic": panic, "hang": hang, "ms": ms, "ndefs": ndefs,
                          "nooutput": if error == 0 && panic == 0 && hang == 0 && output.is_none() { 1 } else { 0 }}));
         let files_v = Value::Object(files);
